@@ -428,6 +428,22 @@ pub fn gen_tbl(r: &mut Rng, tier: &str, emit: &mut dyn FnMut(String)) {
             }
         }
     }
+    // a primitive integer through `add_structure<T>` (recorded finding KF-ADDSTRUCT-INT): always the last
+    // call of its history, so that everything before it is still decided on its own
+    for (t, var) in [("madt", 43), ("hest", 44)] {
+        let kinds = TABLES.iter().find(|(n, _)| *n == t).unwrap().1;
+        for (w, v) in [(8u64, 0u64), (8, 1), (8, 5), (8, 255), (16, 300), (16, 1), (32, 70000), (64, 0x1_0000_0000)] {
+            let mut ctx = Ctx::default();
+            let mut line = header(r, t);
+            for _ in 0..r.below(3) {
+                let k = *r.pick(kinds);
+                if k == "imsic" { continue; }
+                if let Some(tok) = gen_entry(r, k, &mut ctx, false) { line.push_str(" ; "); line.push_str(&tok); }
+            }
+            line.push_str(&format!(" ; dflt/{},{},{}/-/-/-", var, w, v));
+            emit(line);
+        }
+    }
     // boundary histories: counts across 255→257 entries; Length across 256, 65536 bytes
     for (t, kinds) in TABLES.iter() {
         for k in kinds.iter() {
@@ -591,6 +607,7 @@ pub fn gen_ent(r: &mut Rng, tier: &str, emit: &mut dyn FnMut(String)) {
     }
     // opaque entries standalone (C14 only: raw form = serialised form, byte-sum helper, six sinks, twice)
     for v in [0u64, 1, 2, 3, 4, 5, 6, 7, 8, 10, 11, 12, 20, 21, 22, 23, 24, 30] { emit(format!("dflt/{}/-/-/-", v)); }
+    for (w, v) in [(8u64, 0u64), (8, 1), (8, 5), (16, 300), (32, 70000), (64, 0x1_0000_0000)] { emit(format!("dflt/43,{},{}/-/-/-", w, v)); }
     for _ in 0..(if thorough { 2000 } else { 60 }) {
         emit(format!("dflt/40,{},{},{},{},{}/-/-/-", r.below(4), sc(r, 8), sc(r, 8), r.below(5), sc(r, 64)));
         emit(format!("dflt/41,{},{},{}/-/-/-", sc(r, 8), sc(r, 16), sc(r, 64)));
